@@ -96,6 +96,12 @@ type Client struct {
 	Timeout time.Duration // reply timeout on the simulated clock
 	Name    string
 	Dead    bool
+	trace   []string // normalized decoded results of the current operation (C02 differential)
+	last    time.Time
+	port    int
+	addr    *net.TCPAddr
+	faults  *simrt.ConnFaults
+	Redials int
 }
 
 // Dial opens a connection from addr ("ip:port").
@@ -113,7 +119,7 @@ func (w *World) DialPort(port int, addr string, cred Cred, f *simrt.ConnFaults) 
 	if err != nil {
 		return nil, err
 	}
-	return &Client{W: w, Conn: c, Cred: cred, Timeout: 120 * time.Second, Name: addr}, nil
+	return &Client{W: w, Conn: c, Cred: cred, Timeout: 120 * time.Second, Name: addr, last: time.Now(), port: port, addr: ta, faults: f}, nil
 }
 
 // ErrNoReply is returned when the connection ended or timed out before a reply.
@@ -130,6 +136,19 @@ func (c *Client) RawCall(prog, vers, proc uint32, args []byte) (*nfsclient.Reply
 
 // Exchange writes raw bytes and reads one reply, which must echo xid.
 func (c *Client) Exchange(xid uint32, wire []byte, prog, vers, proc uint32) (*nfsclient.Reply, error) {
+	// A real client reconnects when the server has reaped an idle connection
+	// (the record-marking loop reads with a 30 s deadline); do so before that can race with a request.
+	if !c.Dead && time.Since(c.last) > 20*time.Second {
+		c.Conn.Close()
+		nc, err := simrt.Dial(c.addr, c.port, c.faults)
+		if err != nil {
+			c.Dead = true
+			return nil, &ErrNoReply{err}
+		}
+		c.Conn = nc
+		c.Redials++
+	}
+	c.last = time.Now()
 	if c.Dead {
 		return nil, &ErrNoReply{fmt.Errorf("connection dead")}
 	}
@@ -150,6 +169,7 @@ func (c *Client) ReadReply(xid uint32, prog, vers, proc uint32) (*nfsclient.Repl
 		return nil, &ErrNoReply{err}
 	}
 	c.W.NCalls++
+	c.last = time.Now()
 	rep, derr := nfsclient.DecodeReply(rec)
 	o := c.W.O
 	o.Checks++
@@ -181,6 +201,7 @@ func (c *Client) NFS(proc uint32, args []byte) (any, *nfsclient.Reply, error) {
 		return nil, nil, err
 	}
 	if rep.Stat != nfsclient.MsgAccepted || rep.AcceptStat != nfsclient.Success {
+		c.trace = append(c.trace, fmt.Sprintf("%s:stat=%d,accept=%d", nfsclient.NFSProcName(proc), rep.Stat, rep.AcceptStat))
 		return nil, rep, nil
 	}
 	res, derr := nfsclient.DecodeNFS(proc, rep.Results)
@@ -189,6 +210,7 @@ func (c *Client) NFS(proc uint32, args []byte) (any, *nfsclient.Reply, error) {
 		c.W.O.Vio("C14.nfs-result-malformed", shapeFacts(proc, rep.Results), "NFS proc %d result does not decode as its RFC 1813 result type: %v; bytes=%x", proc, derr, trunc(rep.Results, 128))
 		return nil, rep, derr
 	}
+	c.trace = append(c.trace, nfsclient.NFSProcName(proc)+":"+summarize(res))
 	return res, rep, nil
 }
 
